@@ -12,6 +12,7 @@ func init() { families = append(families, factsIndex) }
 
 func factsIndex() {
 	factsC13()
+	factsC11()
 	factsC12()
 	factsC14()
 	factsC16()
@@ -200,4 +201,54 @@ func factsC14() {
 		})
 	}
 	emitStr("subrangeStoreCond", "pkg/store/cache/caching_bucket.go fetchMissingSubranges: a fetched subrange is kept and stored only if", store)
+}
+
+// condSeq lists, in source order, the conditions of the if and for statements of body
+// ("if:" / "for:" prefixes), and labelled break statements ("break <label>").
+func condSeq(body ast.Node) []string {
+	var out []string
+	if body == nil {
+		return out
+	}
+	ast.Inspect(body, func(n ast.Node) bool {
+		switch x := n.(type) {
+		case *ast.IfStmt:
+			out = append(out, "if:"+text(x.Cond))
+		case *ast.ForStmt:
+			if x.Cond != nil {
+				out = append(out, "for:"+text(x.Cond))
+			}
+		case *ast.BranchStmt:
+			if x.Label != nil {
+				out = append(out, x.Tok.String()+" "+x.Label.Name)
+			}
+		}
+		return true
+	})
+	return out
+}
+
+func factsC11() {
+	f := parse("pkg/block/indexheader/binary_reader.go")
+	// the control skeleton of the multi-value lookup, after the v1 branch
+	conds := condSeq(body(fn(f, "BinaryReader", "postingsOffset")))
+	var v2 []string
+	seen := false
+	for _, c := range conds {
+		if strings.Contains(c, "len(values) == 0") {
+			seen = true
+		}
+		if seen {
+			v2 = append(v2, c)
+		}
+	}
+	emitList("postingsOffsetConds", "pkg/block/indexheader/binary_reader.go postingsOffset: conditions of the v2 lookup, in source order", v2)
+	// which entries init keeps: every condition of init that mentions the sampling rate
+	var samp []string
+	for _, c := range condSeq(body(fn(f, "BinaryReader", "init"))) {
+		if strings.Contains(c, "postingOffsetsInMemSampling") {
+			samp = append(samp, c)
+		}
+	}
+	emitList("headerSamplingConds", "pkg/block/indexheader/binary_reader.go init: the sampling tests", samp)
 }
